@@ -25,6 +25,7 @@ CONSTANTS ReqX, ReqY,     \* values of srtp_required explored for X / Y (subsets
           MaxLen,         \* number of actions in a behaviour
           MaxGen,         \* key generations (re-keying) per transport
           Ops,            \* action alphabet in use (subset of AllOps)
+          Reps,           \* how many packets of the class an inbound action delivers (subset of Nat \ {0})
           Deviations      \* subset of GateNames \cup {"AuthFailOpen"}
 
 VARIABLES req,      \* [X |-> BOOLEAN, Y |-> BOOLEAN]   srtp_required (fixed at construction)
@@ -33,9 +34,12 @@ VARIABLES req,      \* [X |-> BOOLEAN, Y |-> BOOLEAN]   srtp_required (fixed at 
           closed,   \* close path has run on X
           wire,     \* ghost: every datagram emitted so far  [tr, cls, gen, gate]
           sinks,    \* ghost: every delivery so far          [sink, auth, gen]
-          hist      \* actions taken, each with what the contract expects / allows for the step
+          hist,     \* actions taken, each with what the contract expects / allows for the step
+          rep       \* every inbound action of the behaviour is a burst of `rep` packets of its class: a gate that
+                    \* lets the n-th unauthenticated packet through (rate-limited handling, counters, caches) is
+                    \* reached with rep >= n; the contract is the same for every packet of the burst
 
-vars == <<req, gen, bridge, closed, wire, sinks, hist>>
+vars == <<req, gen, bridge, closed, wire, sinks, hist, rep>>
 
 Tr == {"X", "Y"}
 AllOps == {"KX", "KY", "S", "SR", "SC", "BYE", "CL",
@@ -48,6 +52,7 @@ Init ==
   /\ bridge = "None"
   /\ closed = FALSE
   /\ wire = <<>> /\ sinks = <<>> /\ hist = <<>>
+  /\ rep \in Reps
 
 ---------------------------------------------------------------------------
 (* What the property allows in a state (used by the invariants' soundness   *)
@@ -87,10 +92,16 @@ Step(op, w, d, auth) ==
     \* transport without session and without the SRTP requirement parses or not: unspecified)
     dx  |-> ~(auth \in {"valid", "forged"} /\ gen["X"] = 0 /\ ~req["X"]) ]
 
+RECURSIVE Times(_, _)
+Times(sq, n) == IF n = 0 THEN <<>> ELSE sq \o Times(sq, n - 1)
+
+\* n = 1 for local operations, rep for an inbound burst (each packet of the burst does what the first does)
 Emit(op, w, d, auth) ==
-  /\ wire' = wire \o w
-  /\ sinks' = sinks \o [i \in 1..Len(d) |-> [sink |-> d[i], auth |-> auth, gen |-> gen["X"]]]
+  LET n == IF auth = "none" THEN 1 ELSE rep IN
+  /\ wire' = wire \o Times(w, n)
+  /\ sinks' = sinks \o Times([i \in 1..Len(d) |-> [sink |-> d[i], auth |-> auth, gen |-> gen["X"]]], n)
   /\ hist' = Append(hist, Step(op, w, d, auth))
+  /\ UNCHANGED rep
 
 ---------------------------------------------------------------------------
 (* Actions                                                                  *)
